@@ -24,6 +24,8 @@ var defaultBlackhole = []string{
 	"github.com/bbva/qed/metrics",
 	"github.com/hashicorp/go-hclog",
 	"github.com/prometheus",
+	"github.com/golang/protobuf",
+	"google.golang.org",
 	"log",
 	"net/http/pprof",
 	"expvar",
